@@ -11,7 +11,7 @@ Callee classes (DESIGN §2):
   OP      pratt Operator::do_parse_*: Err ⇒ input restored to the checkpoint argument.
   PRIM    InputRef primitives.
 """
-from interp import (add_fact, TOP, UNIT, MOVED, AnalysisError, Inp, has_token, strip_token, taint_of, term_of,
+from interp import (contradicts, add_fact, TOP, UNIT, MOVED, AnalysisError, Inp, has_token, strip_token, taint_of, term_of,
                     norm_cmp, mk_struct, struct_get, describe, repr_term, Frame)
 
 F1_TRAITS = {"Parser", "ConfigParser", "IterParser", "ConfigIterParser", "recovery::Strategy"}
@@ -57,6 +57,18 @@ class Models:
             fr.st.inps[n].pos = val[1]
         else:
             fr.st.inps[n].pos = ("W", line)
+
+    def node(self, fr, n, name):
+        """A protocol node (child call / token read / operator / user parser) is reached: record the edge
+        from the previous node and return the cursor tag before it."""
+        st = fr.st
+        pos = st.inps[n].pos
+        self.I.record_edge(st, ("NODE", name), pos, st.inps[n], inner=(n != 0))
+        return pos
+
+    def after_node(self, st, name, result, pos_before):
+        st.last = (name, result, pos_before)
+        st.seg = ()
 
     # ------------------------------------------------------------------ aggregates
     def aggregate(self, fr, adt, r, ops, line):
@@ -104,14 +116,22 @@ class Models:
                         nm = b["locals"][lv[2]].get("name")
                     return "local:" + (nm or "tmp") + ("." + ".".join(str(x) for x in lv[3]) if lv[3] else "")
             if v[0] == "sym":
-                return repr_term(v[1])
+                return self.term_name(v[1])
         return "?"
+
+    def term_name(self, t):
+        """Readable, numbering-free name of a child designated by a symbolic term."""
+        if not isinstance(t, tuple) or not t:
+            return str(t)
+        if t[0] in ("mem", "param", "field", "downcast"):
+            return repr_term(t)
+        return repr_term(t)
 
     def mode_of(self, f):
         nm = f["name"]
-        if nm.endswith("_emit") or nm == "go_emit":
+        if nm.endswith("_emit") or nm == "go_emit" or "_emit_" in nm:
             return "Emit"
-        if nm.endswith("_check") or nm == "go_check":
+        if nm.endswith("_check") or nm == "go_check" or "_check_" in nm:
             return "Check"
         for a in reversed(f.get("args", [])):
             if a in ("private::Emit", "private::Check"):
@@ -175,11 +195,13 @@ class Models:
         if idx is None:
             st = fr.st
             st.ev("user-call", name, line)
-            return [(st, ("sym", ("usercall", name, line)))]
+            return [(st, ("sym", ("usercall", name)))]
         # takes the input: F1 (Result<_, ()>) or USER (Result<_, E::Error>)
         is_unit_err = dest_ty.replace(" ", "").endswith(",()>")
         site = (name, "bb", line)
         self.poison_check(fr, n, "user parser call `%s`" % name, line)
+        nname = "user:%s@%s" % (name, line)
+        pb = self.node(fr, n, nname)
         outs = []
         ok = fr.st.copy()
         i = ok.inps[n]
@@ -188,8 +210,10 @@ class Models:
         if i.some == "N":
             i.some = "M"
         ok.ev("call", name, "user", "Ok", line)
+        self.after_node(ok, nname, "Ok", pb)
         outs.append((ok, ("enum", "Result", "Ok", (("out", frozenset([site])),))))
         er = fr.st.copy()
+        self.after_node(er, nname, "Err", pb)
         i = er.inps[n]
         i.pos = ("X", site)
         i.errs = i.errs | {site}
@@ -300,8 +324,13 @@ class Models:
         kinds = ["Ok", "Err"]
         if name in ("next", "next_cfg"):
             kinds = ["Ok(Some)", "Ok(None)", "Err"]
+        fnc = {"go_emit": "go", "go_check": "go", "go_emit_cfg": "go_cfg", "go_check_cfg": "go_cfg", "invoke": "go",
+               "invoke_cfg": "go_cfg"}.get(name, name)
+        nname = "%s.%s:%s@%s" % (child, fnc, mode, line)
+        pb = self.node(fr, n, nname)
         for k in kinds:
             s2 = fr.st.copy()
+            self.after_node(s2, nname, k, pb)
             i = s2.inps[n]
             i.errs = i.errs | {site}
             i.truncated = i.truncated - {site}
@@ -356,7 +385,10 @@ class Models:
             ck = self.deref_val(fr, rest[1])
             lhs = rest[2]
         res = []
+        nname = "%s.op_%s:%s@%s" % (child, kind, self.mode_of(f), line)
+        pb = self.node(fr, n, nname)
         ok = fr.st.copy()
+        self.after_node(ok, nname, "Ok", pb)
         i = ok.inps[n]
         i.pos = ("S", site)
         i.errs = i.errs | {site}
@@ -366,6 +398,7 @@ class Models:
         ok.ev("opcall", child, kind, "Ok", line)
         res.append((ok, ("enum", "Result", "Ok", (("out", tnt),))))
         er = fr.st.copy()
+        self.after_node(er, nname, "Err", pb)
         i = er.inps[n]
         if isinstance(ck, tuple) and ck[0] == "ckpt":
             i.pos = ck[1]
@@ -416,10 +449,14 @@ class Models:
         if name in TOKEN_READERS or name == "skip":
             self.poison_check(fr, n, "token read %s()" % name, line)
             site = ("token", name, line)
+            nname = "read@%s" % line
+            pb = self.node(fr, n, nname)
             some = st.copy()
+            self.after_node(some, nname, "Some", pb)
             some.inps[n].pos = ("T", site)
             some.ev("read", name, "Some", line)
             none = st.copy()
+            self.after_node(none, nname, "None", pb)
             none.ev("read", name, "None", line)
             if name == "skip":
                 return [(some, UNIT), (none, UNIT)]
@@ -428,6 +465,8 @@ class Models:
         if name in ("skip_while", "skip_bytes"):
             self.poison_check(fr, n, "%s()" % name, line)
             site = ("token", name, line)
+            pb = self.node(fr, n, "%s@%s" % (name, line))
+            self.after_node(st, "%s@%s" % (name, line), "done", pb)
             i.pos = ("T", site)
             st.ev("read", name, "*", line)
             return [(st, UNIT)]
@@ -477,7 +516,7 @@ class Models:
             self.alt_pos_check(fr, at, err, line)
             return [(st, UNIT)]
         if name == "take_alt":
-            v = ("optalt", i.tok, i.some, ("take", line))
+            v = ("optalt", i.tok, i.some, ("take",))
             i.tok, i.some = False, "N"
             st.ev("take_alt", describe(v), line)
             return [(st, v)]
@@ -609,7 +648,7 @@ class Models:
             tgt = vals[0]
             if isinstance(tgt, tuple) and tgt[0] == "slotref":
                 i = st.inps[tgt[1]]
-                v = ("optalt", i.tok, i.some, ("take", line))
+                v = ("optalt", i.tok, i.some, ("take",))
                 i.tok, i.some = False, "N"
                 st.ev("take_alt", describe(v), line)
                 return [(st, v)]
@@ -669,6 +708,10 @@ class Models:
                         for st4, b in self.split_bool(f2, st3, r, line):
                             outs.append((st4, e if b else ("enum", "Option", "None", ())))
             return outs
+        if is_opt and name in ("unwrap_or", "unwrap_or_default") and isinstance(dv[0], tuple) and dv[0][0] == "sym":
+            if name == "unwrap_or":
+                return [(st, ("sym", ("unwrap_or", term_of(dv[0]), term_of(dv[1]))))]
+            return [(st, ("sym", ("unwrap_or_default", term_of(dv[0]))))]
         if is_opt and name in ("unwrap_or", "unwrap_or_else", "unwrap_or_default"):
             outs = []
             for st2, e in self.split_enum(fr, dv[0], ["Some", "None"]):
@@ -809,9 +852,9 @@ class Models:
             st.ev("memo", name, line)
             self.I.memo_ops.append((fr.body, name, [describe(v) for v in vals], line, st))
             if name == "entry":
-                return [(st, ("sym", ("memo_entry", line)))]
+                return [(st, ("sym", ("memo_entry",)))]
             if name == "get":
-                return [(st, ("sym", ("memo_get", line)))]
+                return [(st, ("sym", ("memo_get",)))]
             return [(st, ("sym", ("memo", name, line)))]
 
         # ---- errors helper
@@ -894,7 +937,7 @@ class Models:
             outs = []
             for b in (True, False):
                 fp = b if pol else (not b)
-                if any(ft == t0 and k != fp for ft, k in st.facts):
+                if any(ft == t0 and k != fp for ft, k in st.facts) or contradicts(st.facts, t0, fp):
                     continue
                 s2 = st.copy()
                 s2.facts = add_fact(s2.facts, (t0, fp))
